@@ -32,20 +32,25 @@ theorem cellParams_typ (d : MDecl V) (lv : List Str) (p : Params) (h : p ∈ cel
   · rcases h with h | h <;> subst h <;> exact ⟨rfl, rfl⟩
   · rcases h with h | ⟨t, _, h⟩ <;> subst h <;> exact ⟨rfl, rfl⟩
 
-theorem gauge_lit : "gauge".toList = ['g', 'a', 'u', 'g', 'e'] := by decide
-
 theorem gauge_prefix_head (m : Str) : ("gauge".toList ++ gaugePrefixSep ++ m).head? = some 'g' := by
-  rw [gauge_lit]; rfl
+  have : "gauge".toList = ['g', 'a', 'u', 'g', 'e'] := by rfl
+  simp [this]
 
 theorem nongauge_head (k : Kind V) (hs : match k with | .counter => True | .summary => True | .histogram _ => True | _ => False) :
     (typStr k).head? ≠ some 'g' := by
   cases k with
-  | counter => have : "counter".toList = ['c', 'o', 'u', 'n', 't', 'e', 'r'] := by decide
-               simp only [typStr, this]; decide
-  | summary => have : "summary".toList = ['s', 'u', 'm', 'm', 'a', 'r', 'y'] := by decide
-               simp only [typStr, this]; decide
-  | histogram bs => have : "histogram".toList = ['h', 'i', 's', 't', 'o', 'g', 'r', 'a', 'm'] := by decide
-                    simp only [typStr, this]; decide
+  | counter =>
+    have : ("counter".toList).head? = some 'c' := by rfl
+    show ("counter".toList).head? ≠ some 'g'
+    rw [this]; decide
+  | summary =>
+    have : ("summary".toList).head? = some 's' := by rfl
+    show ("summary".toList).head? ≠ some 'g'
+    rw [this]; decide
+  | histogram bs =>
+    have : ("histogram".toList).head? = some 'h' := by rfl
+    show ("histogram".toList).head? ≠ some 'g'
+    rw [this]; decide
   | gauge => exact absurd hs id
   | info => exact absurd hs id
   | enum s => exact absurd hs id
